@@ -129,6 +129,11 @@ pub fn gen_config(cli: bool, big: bool) -> Cfg {
         if cli && min > avg {
             min = avg;
         }
+        // big mode: sometimes a minimum chunk size beyond three refill buffers, so that one chunk
+        // spans several refills whatever the data looks like
+        if big && !cli && t.chance(1, 4) {
+            min = (13 << 18) + t.draw(3 << 18) as usize;
+        }
         let floor = min.max(window).max(1).max(if cli { avg } else { 1 });
         let max = match t.weighted(&[3, 1, 4, if big { 1 } else { 0 }]) {
             0 => floor + t.draw(spread * 2) as usize,
